@@ -1917,7 +1917,16 @@ func c18Stress(t *testing.T, env verifEnv, keys *c18KeySet, sink *caseSink) {
 		if round%2 == 1 {
 			kind = "create-sub"
 		}
-		h.exec(1, c18Op{K: "cmd", C: 0, Cmd: kind})
+		// every fourth round the subscriber is a remote one; every eighth its attach fails at that moment
+		remote := round%4 == 3
+		if remote {
+			kind = "create-sub(remote)"
+			if round%8 == 7 {
+				h.mcu.cancelRes = "subfail"
+				kind = "create-sub(remote, attach fails)"
+			}
+		}
+		h.exec(1, c18Op{K: "cmd", C: 0, Cmd: strings.SplitN(kind, "(", 2)[0], Remote: remote})
 		h.exec(2, c18Op{K: "resume", C: 1, Sid: 1})
 		// bye cancels the request context; the fake media server answers "created" at that very moment
 		h.exec(3, c18Op{K: "bye", C: 1})
@@ -1927,6 +1936,11 @@ func c18Stress(t *testing.T, env verifEnv, keys *c18KeySet, sink *caseSink) {
 		h.proxy.clientsLock.RUnlock()
 		h.mcu.mu.Lock()
 		nopen := len(h.mcu.open)
+		for _, rp := range h.mcu.rpubs {
+			if rp.refcnt.Load() > 0 {
+				nopen++ // a remote publisher somebody still holds a reference to
+			}
+		}
 		h.mcu.mu.Unlock()
 		if nclients != 0 || nopen != 0 {
 			left++
@@ -2006,6 +2020,12 @@ func TestVerifC18(t *testing.T) {
 		accepted, refused, created := 0, 0, 0
 		for i, o := range c.Ops {
 			sink.count("op_" + o.K)
+			if o.K == "cmd" && o.Cmd == "create-sub" && o.Remote {
+				sink.count("remote_create_subscriber")
+			}
+			if o.K == "done" && strings.HasPrefix(o.R, "sub") {
+				sink.count("answer_remote_attach_" + strings.TrimPrefix(o.R, "sub"))
+			}
 			for _, sl := range o.In {
 				sink.count("completion_inside_close_" + sl.W)
 			}
@@ -2038,5 +2058,5 @@ func TestVerifC18(t *testing.T) {
 	if env.replay == "" {
 		c18Stress(t, env, keys, sink)
 	}
-	sink.close("directed schedules (incl. creations completing inside each forcible window of ProxySession.Close) + seeded sessions ending with creations in flight + seeded token cases (valid tokens and 30 mutation classes) + seeded command scripts of 1-3 sessions on the real ProxyServer over websockets with a gated fake media server; non-trivial = at least one accepted hello and (an object created or a hello refused); distinct = distinct observation sequences")
+	sink.close("directed schedules (incl. creations completing inside each forcible window of ProxySession.Close) + seeded sessions ending with creations in flight + seeded token cases (valid tokens and 30 mutation classes) + seeded command scripts of 1-3 sessions (create-subscriber local and remote: remote publisher created / refused, subscriber attached / attach fails, reference counts of the remote publishers observed) on the real ProxyServer over websockets with a gated fake media server; non-trivial = at least one accepted hello and (an object created or a hello refused); distinct = distinct observation sequences")
 }
